@@ -49,7 +49,9 @@ ASSUMPTIONS = [
     "SETEVENTS is answered at once by the server; the subscription is judged when the trace has been fully delivered",
     "events use modern Tor's format (real address in UPLOADED); HSDir names are $FINGERPRINT~nick",
     "the progress callback's values are recorded (labels) but not judged: the statement does not constrain them and txtorcon's old-Tor path deliberately reports 102..106",
-    "the ADD_ONION/SETCONF command is answered 250; rejected commands are outside the quantifier",
+    "the ADD_ONION/SETCONF command is answered 250; rejected commands (and keys txtorcon refuses before sending) are outside the quantifier",
+    "Tor reports a version >= 0.2.7.2 (older ones have no usable HS_DESC and txtorcon documents that it then declares success at once)",
+    "a discrepancy that disappears when the foreign service's UPLOADED events on directories the own service is uploading to are removed from the history is attributed to the known finding 'UPLOADED matched by directory only'; everything else keeps its own tag",
 ]
 
 ACTIONS = ("UPLOAD", "UPLOADED", "FAILED")
@@ -468,9 +470,11 @@ def reply_placement_cases():
 
 _PLAIN = [("ephemeral", 2, "none"), ("ephemeral", 3, "none"), ("fs", 3, "none"), ("ephemeral", 3, "discard"),
           ("fs", 2, "none"), ("ephemeral", 2, "supplied"), ("ephemeral", 3, "supplied"), ("ephemeral", 2, "discard")]
-# the RSA-key kinds cost ~7 ms per event (txtorcon re-parses the key): one slot in six
-ALL_KINDS = (_PLAIN[:5] + [("auth", 2, "none")] + _PLAIN[3:] + [("fsauth", 2, "none")] +
-             _PLAIN[:5] + [("auth", 2, "discard")] + _PLAIN[3:] + [("auth", 2, "supplied")])
+_RSA = [("auth", 2, "none"), ("fsauth", 2, "none"), ("auth", 2, "discard"), ("auth", 2, "supplied")]
+# the RSA-key kinds cost ~7 ms per event (txtorcon re-parses the key on every event): one slot in 24
+ALL_KINDS = []
+for _i in range(4):
+    ALL_KINDS += _PLAIN + _PLAIN[_i:] + _PLAIN[:_i] + _PLAIN[:7] + [_RSA[_i]]
 
 
 DRIVERS = {"uploads": drive_uploads}
@@ -495,7 +499,7 @@ def run(ctx):
     if ctx.quick():
         ctx.enumerate("uploads", itertools.islice(reply_placement_cases(), 0, None, 37),
                       name="reply-placement-sample", exhaustive=False)
-        ctx.enumerate("uploads", itertools.islice(mixed_cases([0, 1], [0], ALL_KINDS), 0, None, 3),
+        ctx.enumerate("uploads", itertools.islice(mixed_cases([0, 1], [0], ALL_KINDS), 0, None, 5),
                       name="own2-foreign1-sample", exhaustive=False)
         ctx.enumerate("uploads", itertools.islice(own_only_cases(3, ALL_KINDS), 0, None, 7),
                       name="own-3dirs-sample", exhaustive=False)
@@ -506,10 +510,9 @@ def run(ctx):
         ctx.enumerate("uploads", own_only_cases(4, ALL_KINDS[:3]), name="own-4dirs-all-orders")
         ctx.enumerate("uploads", reply_placement_cases(), name="reply-placement")
         ctx.enumerate("uploads", mixed_cases([0, 1], [0], ALL_KINDS), name="own2-foreign1-shared")
-        ctx.enumerate("uploads", mixed_cases([0, 1], [1, 2], ALL_KINDS), name="own2-foreign2-one-shared")
         ctx.enumerate("uploads", mixed_cases([0, 1], [0, 1], ALL_KINDS), name="own2-foreign2-both-shared")
         ctx.enumerate("uploads", mixed_cases([0, 1, 2], [1], ALL_KINDS), name="own3-foreign1-shared")
-        ctx.search("uploads", cases(), quick=900, thorough=2500)
+        ctx.search("uploads", cases(), quick=700, thorough=1000)
 
 
 # NOTE: written against the tree with out/fixes/C15-*.diff applied (three of them touch this code).
@@ -524,8 +527,10 @@ MUTANTS = [
     ("upload-ignores-hostname", "txtorcon/onion.py",
      "        if subtype == 'UPLOAD':\n            if hostname_matches('{}.onion'.format(args[1])):",
      "        if subtype == 'UPLOAD':\n            if True:"),
-    ("uploaded-needs-no-attempt", "txtorcon/onion.py",
-     "            if args[3] in attempted_uploads:", "            if True:"),
+    ("uploaded-matched-by-directory-only", "txtorcon/onion.py",
+     "            if args[3] in attempted_uploads and uploaded_matches(args[1]):", "            if args[3] in attempted_uploads:"),
+    ("uploaded-address-check-v3-only", "txtorcon/onion.py",
+     "        if re.match('^([a-z2-7]{16}|[a-z2-7]{56})$', address):", "        if re.match('^([a-z2-7]{56})$', address):"),
     ("all-mode-off-by-one", "txtorcon/onion.py",
      "                        if (len(failed_uploads) + len(confirmed_uploads)) == len(attempted_uploads):",
      "                        if (len(failed_uploads) + len(confirmed_uploads)) >= len(attempted_uploads) - 1:"),
